@@ -390,6 +390,24 @@ def r1(rep, w):
                 key = '%s / %s is unconditional' % (x['adt'], which)
                 r.check(not plain, key, '%s::%s traces under a condition on `%s`, which is not part of what is being traced: the edge is followed only while every writer '
                         'keeps that state exact' % (x['adt'].rsplit('::', 1)[-1], which, ', '.join(plain)), f.loc(t.get('sp')))
+                # ... or on a property (is_empty, len, is_some ...) of one field that decides whether *other* fields are traced: "a finished
+                # fiber has nothing to trace" skips the caller link together with the empty frame list
+                tested = sorted({tk for q in qs if q[0][0] == 'call' and q[0][2] not in w.fns for q2 in org.get((op_place(f.blocks[q[0][1]]['t']['args'][0]) or {}).get('l'), ())
+                                 if f.blocks[q[0][1]]['t']['args'] and q2[0] == ('arg', 1) for tk in q2[1:2] if not tk.startswith(('@', '#', '*'))})
+                if tested and not plain:
+                    calls_ = trace_calls(w, f.path, which) or []
+                    by_edge = []
+                    for e_ in f.succs()[bi]:
+                        reach_ = f.reachable_blocks(e_)
+                        by_edge.append({toks[0] for (toks, _, cb) in calls_ if toks and cb in reach_})
+                    diff = set()
+                    for a_ in by_edge:
+                        for b_ in by_edge:
+                            diff |= a_ - b_
+                    skipped = sorted(x for x in diff if x not in tested)
+                    r.check(not skipped, '%s / %s: a test of `%s` guards only the tracing of that field' % (x['adt'], which, ', '.join(tested)),
+                            '%s::%s skips tracing `%s` depending on the state of `%s`: those edges are followed only while that other field happens to be in the '
+                            'right state' % (x['adt'].rsplit('::', 1)[-1], which, ', '.join(skipped), ', '.join(tested)), f.loc(t.get('sp')))
                 # ... or on the answer of one of the interpreter's own predicates. A predicate over a Value ("is this a heap reference?") is
                 # evaluated for every variant: all variants that carry a managed pointer must go the way the trace call lies on. Any other
                 # workspace predicate over the object is a condition on its state, as above.
@@ -906,6 +924,49 @@ def r0(rep, w):
         return out
     r.check(colour_set(gm) == {'Grey'} and colour_set(gb) == {'Black'}, 'GcBox::mark greys, GcBox::blacken blackens',
             'GcBox::mark/blacken use colours %s / %s' % (sorted(colour_set(gm)), sorted(colour_set(gb))), gm.loc())
+    # colouring a box and following its references are one step: whether GcBox::mark / blacken recurses into the payload depends on the
+    # box's colour and on nothing else (a depth limit, a budget, a flag: "someone else will pick it up later" needs every other part
+    # of the collector to agree), and once the colour is written the payload's mark / blacken is called on every path
+    for which, f in (('mark', gm), ('blacken', gb)):
+        org = origins(f)
+
+        def about_colour(local, depth=0):
+            """the value is the box's colour, or the result of comparing / replacing it"""
+            qs = org.get(local, ())
+            if not qs:
+                return False
+            for q in qs:
+                if 'colour' in q:
+                    continue
+                if q[0][0] == 'call' and depth < 3:
+                    ct = f.blocks[q[0][1]]['t']
+                    nm = callee_name(ct) or ''
+                    if (nm.endswith('::eq') or nm.endswith('::ne') or 'Cell' in nm) and any(op_place(a) is not None and about_colour(op_place(a)['l'], depth + 1) for a in ct['args']):
+                        continue
+                return False
+            return True
+        other = []
+        same_colour_edges = set()
+        for bi in sorted(f.normal_blocks()):
+            t = f.blocks[bi]['t']
+            if t['t'] != 'switch' or op_place(t['d']) is None:
+                continue
+            # a cfg!() literal (trace output) is a constant, not a condition
+            if any(s_.get('d', {}).get('l') == op_place(t['d'])['l'] and op_const((s_.get('r', {}) or {}).get('o', {}) or {}) is not None for s_ in f.blocks[bi]['s']):
+                continue
+            if about_colour(op_place(t['d'])['l']):
+                same_colour_edges |= set(f.succs()[bi])
+                continue
+            qs = org.get(op_place(t['d'])['l'], ())
+            other.append(sorted({(q[0][2].rsplit('::', 2)[-2] + '::' + q[0][2].rsplit('::', 1)[-1]) if q[0][0] == 'call' else '.'.join(x for x in q[1:] if x != '*') for q in qs})[:2])
+        r.check(not other, 'GcBox::%s: only the colour decides whether the payload is traced' % which,
+                'GcBox::%s follows the references of a box under a condition other than its colour (%s): objects skipped here stay reachable but may never be traced' % (which, other), f.loc())
+        rec = {bi for bi, t in f.calls() if t['f'].get('def') == GCM + '::' + which}
+        # every path either leaves through the colour test (the box already has the colour: it was visited) or traces the payload
+        exits = {e for e in same_colour_edges if not any(x in f.reachable_blocks(e) or x == e for x in rec)}
+        ok_ = bool(rec) and all_paths_hit(f, None, rec | exits)
+        r.check(ok_, 'GcBox::%s: a box that changes colour has its payload traced on every path' % which,
+                'GcBox::%s can colour a box and return without tracing its payload' % which, f.loc())
 
 
 def strip_generics_(n):
